@@ -336,6 +336,9 @@ class Sim:
             tmo = None if t[4] == "-" else int(t[4])
             old = wq.id2job.get(name) if name is not None else None
             count0 = wq.count
+            self.track()
+            # accepted, unfinished jobs that carry this id (whether or not id2job still knows them)
+            live_same = [j for j in self.tracked.values() if name is not None and j.jobid == name and not j.done]
             p = self.conn(0)["plugin"]
             r = p.rpc_qadd(ch, payload=None, priority=prio, jobid=name, timeout=tmo)
             if wq.count != count0 or (name is None):
@@ -356,6 +359,9 @@ class Sim:
                     self.v("readd", "add under the id %r of a killed job did not create a new job" % name)
             elif wq.count != count0 + 1:
                 self.v("readd", "add of a new job did not take a fresh serial")
+            elif live_same:
+                self.v("readd", "add under id %r created a second job although the unfinished job serial %d has that id (it is not registered in id2job any more)" % (
+                    name, live_same[0].serial))
             return [["jid", jid_s(r)]]
         if k == "P":
             c = int(t[1])
